@@ -24,9 +24,10 @@ import (
 type Options struct {
 	VerifyOnly bool `json:"verify_only,omitempty"`
 	TxManager  bool `json:"tx_manager,omitempty"`
-	Manager    bool `json:"node_manager,omitempty"`    // register the node with a NodeManager
-	Preload    bool `json:"preload_headers,omitempty"` // the repository already holds blocks 1 and 2 (learned from another peer)
-	ReadChunk  int  `json:"read_chunk,omitempty"`      // > 0: the node's reads return at most this many bytes (the stream arrives in pieces)
+	Manager    bool `json:"node_manager,omitempty"`     // register the node with a NodeManager
+	Preload    bool `json:"preload_headers,omitempty"`  // the repository already holds blocks 1 and 2 (learned from another peer)
+	Universe   bool `json:"universe_headers,omitempty"` // proof-of-work checking off, so that the labelled header universe of verif/hdr can be submitted to the repository
+	ReadChunk  int  `json:"read_chunk,omitempty"`       // > 0: the node's reads return at most this many bytes (the stream arrives in pieces)
 }
 
 // SpyHeaders wraps the real header repository and records the calls a peer can cause.
@@ -184,6 +185,9 @@ func start(opt Options, with *Session) *Session {
 		store := vstore.New()
 		repo := headers.NewRepository(headers.DefaultConfig(), store)
 		repo.InitializeWithGenesis()
+		if opt.Universe {
+			repo.DisableDifficulty()
+		}
 		if opt.Preload {
 			for _, h := range []*wire.BlockHeader{Block1, Block2} {
 				hc := h.Copy()
